@@ -240,12 +240,14 @@ pub struct Item {
     /// C08: mount options of the jail's /proc, caller identity, descriptor limit
     pub proc_opts: Option<String>,
     pub unpriv: bool,
+    /// C08: the caller is root of a fresh user namespace owning its mount and pid namespaces
+    pub userns: bool,
     pub nofile: Option<u64>,
     /// the caller has no descriptor 0 (a daemon that closed stdin): the library's first open returns 0
     pub no_stdin: bool,
 }
 
-fn item(scen: Scenario, plan: Plan, max_exec: u64) -> Item { Item { scen, plan, warm: true, mount_api: 0, max_exec, bundle: vec![], others: vec![], proc_opts: None, unpriv: false, nofile: None, no_stdin: false } }
+fn item(scen: Scenario, plan: Plan, max_exec: u64) -> Item { Item { scen, plan, warm: true, mount_api: 0, max_exec, bundle: vec![], others: vec![], proc_opts: None, unpriv: false, userns: false, nofile: None, no_stdin: false } }
 
 /// Argument spellings for the input sweep of mutating operations (C03/C05/C11).
 pub fn sweep_paths() -> Vec<&'static str> {
@@ -361,7 +363,7 @@ pub fn items(prop: &str, tier: &str) -> Vec<Item> {
     let bundle = |name: &str, scens: Vec<Scenario>, size: usize, warm: bool, mount_api: u8, out: &mut Vec<Item>| {
         for (i, ch) in scens.chunks(size).enumerate() {
             let s0 = Scenario { name: format!("{}#{}", name, i), backend: ch[0].backend.clone(), op: ch[0].op.clone(), path: String::new() };
-            out.push(Item { scen: s0, plan: Plan::Trace, warm, mount_api, max_exec: 1, bundle: ch.to_vec(), others: vec![], proc_opts: None, unpriv: false, nofile: None, no_stdin: false });
+            out.push(Item { scen: s0, plan: Plan::Trace, warm, mount_api, max_exec: 1, bundle: ch.to_vec(), others: vec![], proc_opts: None, unpriv: false, userns: false, nofile: None, no_stdin: false });
         }
     };
     match prop {
@@ -450,9 +452,16 @@ pub fn items(prop: &str, tier: &str) -> Vec<Item> {
                 ("self", "status", "existing"), ("thread-self", "fd/3", "existing"), ("root", "self/stat", "existing"),
                 ("root", "sys/kernel/ostype", "masked"), ("root", "1/status", "masked"), ("root", "uptime", "masked"), ("root", "1/nonexistent", "masked"),
             ];
-            let mut cfgs: Vec<(bool, Option<&str>)> = Vec::new();
-            for unpriv in [false, true] { for o in [None, Some("hidepid=1"), Some("hidepid=2"), Some("hidepid=ptraceable"), Some("subset=pid"), Some("hidepid=2,subset=pid")] { cfgs.push((unpriv, o)); } }
-            for (unpriv, opts) in &cfgs {
+            // caller kinds: 0 = root with every capability, 1 = uid 1000 without capabilities, 2 = root of a fresh user namespace that
+            // owns its mount and pid namespaces (rootless container: may mount a private procfs only if that is not "too revealing")
+            let who_name = |w: u8| match w { 0 => "root", 1 => "uid1000", _ => "usernsroot" };
+            let mut cfgs: Vec<(u8, Option<&str>)> = Vec::new();
+            for who in [0u8, 1, 2] { for o in [None, Some("hidepid=1"), Some("hidepid=2"), Some("hidepid=ptraceable"), Some("subset=pid"), Some("hidepid=2,subset=pid")] {
+                if who == 2 && !th && !matches!(o, None | Some("hidepid=2") | Some("subset=pid")) { continue; }
+                cfgs.push((who, o));
+            } }
+            for (who, opts) in &cfgs {
+                let unpriv = &(*who == 1);
                 let mut scs: Vec<Scenario> = Vec::new();
                 for hk in ["new", "capi", "fromfd"] {
                     for (base, sub, class) in &subs {
@@ -461,23 +470,24 @@ pub fn items(prop: &str, tier: &str) -> Vec<Item> {
                             if !th && opn == "proc_open_follow" && *class != "missing" { continue; }
                             let mut op = Op::new(opn).base(base).path(sub).flags(O_RDONLY | O_NONBLOCK);
                             match hk { "new" => op = op.procfs("new"), "capi" => op = op.capi(), _ => op = op.procfs("pj") }
-                            scs.push(Scenario { name: format!("{}{}/{}/{}", if *unpriv { "uid1000" } else { "root" }, opts.map(|o| format!("+{}", o)).unwrap_or_default(), hk, op.brief()), backend: "K".into(), op, path: class.to_string() });
+                            scs.push(Scenario { name: format!("{}{}/{}/{}", who_name(*who), opts.map(|o| format!("+{}", o)).unwrap_or_default(), hk, op.brief()), backend: "K".into(), op, path: class.to_string() });
                         }
                     }
                 }
                 let s0 = scs[0].clone();
-                v.push(Item { scen: s0, plan: Plan::Trace, warm: true, mount_api: 0, max_exec: 1, bundle: scs, others: vec![], proc_opts: opts.map(|s| s.to_string()), unpriv: *unpriv, nofile: Some(256), no_stdin: false });
+                v.push(Item { scen: s0, plan: Plan::Trace, warm: true, mount_api: 0, max_exec: 1, bundle: scs, others: vec![], proc_opts: opts.map(|s| s.to_string()), unpriv: *unpriv, userns: *who == 2, nofile: Some(256), no_stdin: false });
             }
             // environment answers of the handle-construction protocol: every single (thorough: every pair of) deviating answer(s)
             let names: Vec<String> = ["fsopen", "fsconfig", "fsmount", "open_tree", "openat", "faccessat2"].iter().map(|s| s.to_string()).collect();
-            for (unpriv, opts) in [(false, None), (true, Some("hidepid=2")), (false, Some("subset=pid")), (true, None)] {
+            for (who, opts) in [(0u8, None), (1, Some("hidepid=2")), (0, Some("subset=pid")), (1, None), (2, Some("subset=pid")), (2, None)] {
+                let unpriv = who == 1;
                 for (base, sub, class) in [("root", "nonexistent", "missing"), ("root", "sys/kernel/ostype", "masked"), ("self", "nonexistent", "missing")] {
                     for hk in ["new", "fromfd"] {
                         let mut op = Op::new("proc_open").base(base).path(sub).flags(O_RDONLY | O_NONBLOCK);
                         op = if hk == "new" { op.procfs("new") } else { op.procfs("pj") };
-                        let sc = Scenario { name: format!("{}{}/{}/{}", if unpriv { "uid1000" } else { "root" }, opts.map(|o| format!("+{}", o)).unwrap_or_default(), hk, op.brief()), backend: "K".into(), op, path: class.to_string() };
+                        let sc = Scenario { name: format!("{}{}/{}/{}", who_name(who), opts.map(|o| format!("+{}", o)).unwrap_or_default(), hk, op.brief()), backend: "K".into(), op, path: class.to_string() };
                         let mut it = item(sc, Plan::Fault { bound: if th { 2 } else { 1 }, cfg: FaultCfg { all_syscalls: false, per_class: 4, eagain_runs: vec![], exhaustion: false, custom: Some((names.clone(), vec![libc::EPERM, libc::ENOSYS, libc::ENOENT])) } }, if th { 30_000 } else { 3_000 });
-                        it.proc_opts = opts.map(|s| s.to_string()); it.unpriv = unpriv; it.nofile = Some(256);
+                        it.proc_opts = opts.map(|s| s.to_string()); it.unpriv = unpriv; it.userns = who == 2; it.nofile = Some(256);
                         v.push(it);
                     }
                 }
@@ -555,6 +565,7 @@ fn spec_for(it: &Item, scen: &Scenario) -> OneShot {
     let mut os = oneshot(&scen.backend, scen.op.clone(), it.warm);
     os.warmup.extend(handle_warmup(&scen.op));
     if it.no_stdin { os.warmup.push(Op::new("close_stdin")); }
+    if it.userns { os.setup.userns = true; }
     if it.unpriv { os.setup.uid = 1000; os.setup.gid = 1000; os.setup.drop_caps = true; os.setup.keep_dumpable = true; }
     os.setup.rlimit_nofile = it.nofile;
     if it.mount_api >= 1 { os.setup.deny.push("fsopen".to_string()); }
